@@ -1,6 +1,6 @@
 (* C04 - Supervisor: Run() result reflects the cause of termination.  Statements only. *)
 From Coq Require Import List Bool Arith.
-From GS Require Import LTS Supervisor SupAccept SupProps SupInv SupTrig SupResult.
+From GS Require Import LTS Supervisor SupAccept SupProps SupInv SupTrig SupResult SupReports.
 Import ListNotations.
 
 (* A non-nil result is an error value some runnable's Run actually returned and that is not (and
@@ -43,4 +43,63 @@ Example C04_ex_schedule :
 Proof. eexists. split; vm_compute; reflexivity. Qed.
 Example C04_ex_rejects_foreign_error :
   c04_holdsb c04_cfg [ERunCall 0; ERunRet 0 (Some (7, true)); ERunReturn (ResErr 7)] = false.
+Proof. vm_compute. reflexivity. Qed.
+
+(* ---- the "reports" clause ---- *)
+
+(* Run() returns nil only after a shutdown trigger that is not a runnable failure: an INT/TERM
+   SendSignal call, a parent-context cancellation, a Shutdown() call or a ShutdownSender trigger
+   occurs in the trace before every `ERunReturn ResNil`.  (A failing runnable alone never yields nil.) *)
+Theorem C04_reports : forall c ls s,
+  run (step c) (init c) ls = Some s -> c04_reports c (obs_trace obs ls) = true.
+Proof. exact sup_c04_reports. Qed.
+
+(* If no such trigger has occurred at the moment Main fixes its result r (it leaves the start-up
+   loop or reap() with r: main = MExit r, and later MWaitSd r / MReturned r), then r is an error a
+   runnable's Run really returned - or the start-up timeout, only when that deadline can fire. *)
+Theorem C04_reports_decided : forall c ls s r,
+  run (step c) (init c) ls = Some s -> main_res (main s) = Some r ->
+  existsb is_nonfail_trigger (obs_trace obs ls) = false ->
+  reports_err c (obs_trace obs ls) r.
+Proof. exact sup_c04_reports_decided. Qed.
+
+(* ... and that r is what Run() returns on every continuation, whatever triggers arrive later. *)
+Theorem C04_reports_final : forall c ls1 s1 r ls2 s2 r',
+  run (step c) (init c) ls1 = Some s1 -> main_res (main s1) = Some r ->
+  existsb is_nonfail_trigger (obs_trace obs ls1) = false ->
+  run (step c) s1 ls2 = Some s2 -> main s2 = MReturned r' ->
+  r' = r /\ reports_err c (obs_trace obs ls1) r.
+Proof. exact sup_c04_reports_final. Qed.
+
+Print Assumptions C04_reports.
+Print Assumptions C04_reports_decided.
+Print Assumptions C04_reports_final.
+
+(* non-vacuity: in c04_sched_pre Main reacts to the failure (LReapErr) before any other trigger; a
+   Shutdown() call and a SIGTERM arriving afterwards do not change the result *)
+Definition c04_sched_pre : list label :=
+  [LLaunch 0; LRunCall 0; LRunRet 0 (Some (7, false)); LErrSend 0; LReapErr].
+Definition c04_sched_post : list label :=
+  [LCall 1 OpShutdown; LCallerGo 1; LCall 2 (OpSignal SigTerm); LSigPut 2; LMainShutdown;
+   LStopCall 0; LStopRet 0; LSdCancel; LSdWgDone; LMainReturn (ResErr 7)].
+Example C04_ex_reports_hyps :
+  exists s1 s2, run (step c04_cfg) (init c04_cfg) c04_sched_pre = Some s1 /\
+                main_res (main s1) = Some (ResErr 7) /\
+                existsb is_nonfail_trigger (obs_trace obs c04_sched_pre) = false /\
+                run (step c04_cfg) s1 c04_sched_post = Some s2 /\ main s2 = MReturned (ResErr 7).
+Proof.
+  eexists. eexists. split; [vm_compute; reflexivity|]. split; [vm_compute; reflexivity|].
+  split; [vm_compute; reflexivity|]. split; vm_compute; reflexivity.
+Qed.
+(* the hypothesis matters: when SIGTERM is consumed first, Run() returns nil although a runnable
+   failed *)
+Definition c04_sched_term : list label :=
+  [LLaunch 0; LRunCall 0; LCall 2 (OpSignal SigTerm); LSigPut 2; LRunRet 0 (Some (7, false)); LErrSend 0;
+   LReapSig; LMainShutdown; LStopCall 0; LStopRet 0; LSdCancel; LSdWgDone; LMainReturn ResNil].
+Example C04_ex_reports_other_trigger :
+  exists s, run (step c04_cfg) (init c04_cfg) c04_sched_term = Some s /\ main s = MReturned ResNil /\
+            real_error_ids (obs_trace obs c04_sched_term) = [7].
+Proof. eexists. split; [vm_compute; reflexivity|]. split; vm_compute; reflexivity. Qed.
+Example C04_ex_reports_rejects :
+  c04_reports c04_cfg [ERunCall 0; ERunRet 0 (Some (7, false)); EStopCall 0; EStopRet 0; ERunReturn ResNil] = false.
 Proof. vm_compute. reflexivity. Qed.
